@@ -37,6 +37,7 @@ type c06Prog struct {
 	Conc     int          `json:"conc"`               // LogOptions.Concurrency of the destination (0 = default)
 	Bound    int          `json:"bound,omitempty"`    // 0: unbounded merge; k > 0: the merge carries the size bound (k-1) mod (candidates+3)
 	SharedAC bool         `json:"sharedAC,omitempty"` // the source log is guarded by the very access-controller object of the destination (it was built from entries, so the controller never saw them)
+	Stranger int          `json:"stranger,omitempty"` // 0: no; 1, 2: before anything else the source is offered to a replica of ANOTHER codec configuration (other link key / link key where the writers have none / none where they have one); whatever that replica answers, the entries remain what Append produced
 	InPlace  bool         `json:"inPlace"`            // corrupt the source's entry objects themselves (they were verified by an earlier merge) instead of copies
 }
 
@@ -58,6 +59,7 @@ func genC06(t *rapid.T) c06Prog {
 	p.Conc = rapid.SampledFrom([]int{0, 0, 1, 2, 3, 4, 5, 7}).Draw(t, "conc")
 	p.InPlace = rapid.IntRange(0, 2).Draw(t, "inPlace") == 0
 	p.SharedAC = rapid.IntRange(0, 2).Draw(t, "sharedAC") == 0
+	p.Stranger = rapid.SampledFrom([]int{0, 0, 1, 2}).Draw(t, "stranger")
 	if rapid.IntRange(0, 3).Draw(t, "bounded") == 0 {
 		p.Bound = rapid.IntRange(1, 1<<10).Draw(t, "bound")
 	}
@@ -156,6 +158,32 @@ func runC06(tb ev.TB, p c06Prog) ev.Result {
 	src := w.Reps[si]
 	dstModel := w.Reps[di].Model
 
+	// (a0) the source may first have been offered to a replica configured differently
+	if p.Stranger > 0 && len(src.Model) > 0 {
+		var sio iface.IO
+		switch {
+		case p.Stranger == 1:
+			sio = world.IO(world.CodecLinkKey, 1)
+		case codec == world.CodecLinkKey:
+			sio = world.IO(world.CodecDefault, 0)
+		default:
+			sio = world.IO(world.CodecLinkKey, 2)
+		}
+		stranger, err := world.NewLog(w.Store.API(), (src.Writer+2)%4, sim.LogID, w.Order, sio, nil)
+		if err != nil {
+			tb.Fatalf("harness: %v", err)
+		}
+		if _, err := stranger.Join(src.Log, -1); err != nil {
+			classes = append(classes, "stranger-refused")
+		} else {
+			classes = append(classes, "stranger-accepted")
+		}
+		for _, e := range src.Log.GetEntries().Slice() {
+			if err := e.Verify(world.Identity(0).Provider, w.IO); err != nil {
+				tb.Fatalf("entry %s produced by Append no longer verifies under its own codec (%s) after the log was offered to a replica of another codec configuration: %v", world.Short(e.GetHash().String()), codec, err)
+			}
+		}
+	}
 	// (a) every appended entry merges into a fresh permissive replica with the same codec
 	fresh := w.NewEmptyLog(tb, (src.Writer+1)%4, sim.LogID)
 	if _, err := fresh.Join(src.Log, -1); err != nil {
@@ -165,6 +193,13 @@ func runC06(tb ev.TB, p c06Prog) ev.Result {
 		tb.Fatalf("fresh replica did not receive all entries")
 	}
 
+	// what every identifier stands for, taken before anything is tampered with
+	genuine := map[string]string{}
+	for _, l := range []*ipfslog.IPFSLog{src.Log, w.Reps[di].Log} {
+		for _, e := range l.GetEntries().Slice() {
+			genuine[e.GetHash().String()] = world.ContentDigest(e)
+		}
+	}
 	// (b) corrupted source
 	srcHashes := src.Model.Sorted()
 	if len(srcHashes) == 0 {
@@ -375,6 +410,17 @@ func runC06(tb ev.TB, p c06Prog) ev.Result {
 			tb.Fatalf("after the merge the heads are %v, the entries nothing in the log points to are %v", world.Shorts(got.Sorted()), world.Shorts(wantHeads.Sorted()))
 		}
 	}
+	// never: under an identifier the log already held (or one it accepted), an object with other content - the source
+	// may carry a tampered object under the identifier of an entry the destination holds; it is not a candidate, and
+	// nothing of it may surface in the entries, heads or values the log hands out
+	for what, es := range map[string][]iface.IPFSLogEntry{"entries": dst.GetEntries().Slice(), "heads": dst.Heads().Slice(), "values": dst.Values().Slice()} {
+		for _, e := range es {
+			h := e.GetHash().String()
+			if want, ok := genuine[h]; ok && world.ContentDigest(e) != want && (dstModel.Has(h) || jerr == nil) {
+				tb.Fatalf("after the merge (error: %v) the %s of the log hold an object for %s whose content is not that entry's (log id %q, payload %q): held before: %v, tampered in the source as: %q", jerr, what, world.Short(h), e.GetLogID(), e.GetPayload(), dstModel.Has(h), corrupted[h])
+			}
+		}
+	}
 	// never: a foreign log id, an unverifiable or denied entry inside the log
 	for _, e := range dst.GetEntries().Slice() {
 		h := e.GetHash().String()
@@ -474,7 +520,7 @@ func (a snap) diff(b snap) string {
 
 func TestC06(t *testing.T) {
 	c := ev.Get("C06")
-	c.Rule = "a generated multi-replica program (1-4 writers, default/link-key/legacy codec) builds valid logs; every appended entry must verify and the source must merge into a fresh permissive replica. Then a corruption plan (0..all positions; kinds: signature removed/from another entry/bit-flipped, key removed/foreign/garbage/truncated, payload/next/time changed after signing, foreign log id) is applied to copies placed in a source log built with NewLog(Entries, Heads), the destination holds another replica's entries and a generated pure access policy (deny by writer / payload prefix / hash set, or one that inspects the log through the context the library hands over and permits an entry only while that log is exactly what the destination held before the merge). The harness computes the candidate set itself; if any candidate is invalid or denied the merge must fail and leave the full snapshot (entries, heads, values, published heads, clock, result of a following append) unchanged, otherwise it must succeed with destination ∪ candidates. Also: denied Append returns an error and changes neither entries nor heads. Non-trivial = an invalid candidate that is not a head of the source, with >= 2 candidates; distinct = distinct program."
+	c.Rule = "a generated multi-replica program (1-4 writers, default/link-key/legacy codec) builds valid logs; every appended entry must verify and the source must merge into a fresh permissive replica. Then a corruption plan (0..all positions; kinds: signature removed/from another entry/bit-flipped, key removed/foreign/garbage/truncated, payload/next/time changed after signing, foreign log id) is applied to copies placed in a source log built with NewLog(Entries, Heads), the destination holds another replica's entries and a generated pure access policy (deny by writer / payload prefix / hash set, or one that inspects the log through the context the library hands over and permits an entry only while that log is exactly what the destination held before the merge). The harness computes the candidate set itself; if any candidate is invalid or denied the merge must fail and leave the full snapshot (entries, heads, values, published heads, clock, result of a following append) unchanged, otherwise it must succeed with destination ∪ candidates. In half of the programs the valid source is first offered to a replica of another codec configuration (another link key, a link key where the writers have none, none where they have one): whatever it answers, every entry must still verify and merge under its own configuration. After every merge, whatever the log hands out as entries, heads or values under an identifier it held before (or accepted) must have that entry's content - the source may carry tampered objects under identifiers the destination already holds. Also: denied Append returns an error and changes neither entries nor heads. Non-trivial = an invalid candidate that is not a head of the source, with >= 2 candidates; distinct = distinct program."
 	c.Assumptions = []string{"the access controller is a pure function safe for concurrent calls", "an entry with a foreign log id is skipped silently (together with what is only reachable through it), as the statement's first clause says, and is not one of the error-raising kinds"}
 	ev.Check(t, "C06", genC06, runC06)
 }
